@@ -474,9 +474,13 @@ package risc
 //@   trusted
 //@   assigns nothing
 
+// (C11) every immediate and offset of the assembly subset is DECIMAL and fits 32
+// bits: each call of ParseInt in the parser asks for base 10 and 32 bits (with
+// base 0 a leading zero would mean octal and 0x.. would be accepted).
 //@ func strconv.ParseInt
 //@   mode int
 //@   trusted
+//@   requires base == 10 && bitSize == 32
 //@   ensures err == nil && bitSize == 32 ==> -2147483648 <= i && i <= 2147483647
 //@   ensures err != nil ==> i == 0 || true
 //@   assigns nothing
